@@ -156,3 +156,83 @@ func VerifC20Client() {
 	nd.Assert(staleRan == 0, "C20-client-replaced-registry-never-fires")
 	nd.Reach("end")
 }
+
+// VerifC20Verdicts: the verdict of a registered matcher is what the operation uses - for every item. A native
+// key matcher (and a native filter matcher) is an arbitrary Go function: three items, one symbolic verdict per
+// item, Query (both directions, with and without a Limit large enough) and Scan return exactly the items the
+// matcher accepted, in key order - also when an accepted item comes after a refused one that follows an
+// accepted one.
+func VerifC20Verdicts() {
+	c := NewClient()
+	c.ActivateNativeInterpreter()
+	withRange := nd.Choice("range-key", 2) == 1
+	r := ""
+	if withRange {
+		r = "s"
+	}
+	nd.Assert(AddTable(vCtx, c, vTbl, "p", r) == nil, "setup-addtable")
+	keys := []string{"a", "b", "c"}
+	verdicts := map[string]bool{}
+	for _, k := range keys {
+		verdicts[k] = nd.Bool("verdict." + k)
+		it := vItem{"p": vS(k), "v": vS("x")}
+		if withRange {
+			it = vItem{"p": vS("h"), "s": vS(k), "v": vS("x")}
+		}
+		nd.Assert(vPut(c, it) == nil, "setup-put")
+	}
+	attr := "p"
+	if withRange {
+		attr = "s"
+	}
+	ran := 0
+	decide := func(item, attrs map[string]*mtypes.Item) bool {
+		ran++
+		if item[attr] == nil || item[attr].S == nil {
+			return false
+		}
+		return verdicts[*item[attr].S]
+	}
+	c.GetNativeInterpreter().AddMatcher(vTbl, interpreter.ExpressionTypeKey, "p = :p", decide)
+	c.GetNativeInterpreter().AddMatcher(vTbl, interpreter.ExpressionTypeFilter, "v = :x", decide)
+	var got []vItem
+	fwd := true
+	if nd.Choice("read", 2) == 0 {
+		fwd = nd.Choice("forward", 2) == 1
+		in := &dynamodb.QueryInput{TableName: aws.String(vTbl), KeyConditionExpression: aws.String("p = :p"), ExpressionAttributeValues: vItem{":p": vS("h")}, ScanIndexForward: aws.Bool(fwd)}
+		if nd.Choice("with-limit", 2) == 1 {
+			in.Limit = aws.Int32(10)
+		}
+		out, err := c.Query(vCtx, in)
+		nd.Assert(err == nil && len(out.LastEvaluatedKey) == 0, "C20-verdicts-query-noerr")
+		if err == nil {
+			got = out.Items
+		}
+	} else {
+		out, err := c.Scan(vCtx, &dynamodb.ScanInput{TableName: aws.String(vTbl), FilterExpression: aws.String("v = :x"), ExpressionAttributeValues: vItem{":x": vS("x")}})
+		nd.Assert(err == nil, "C20-verdicts-scan-noerr")
+		if err == nil {
+			got = out.Items
+		}
+	}
+	var want []string
+	for _, k := range keys {
+		if verdicts[k] {
+			want = append(want, k)
+		}
+	}
+	if !fwd {
+		for i, j := 0, len(want)-1; i < j; i, j = i+1, j-1 {
+			want[i], want[j] = want[j], want[i]
+		}
+	}
+	nd.Assert(ran >= 1, "C20-verdicts-matcher-ran")
+	nd.Assert(len(got) == len(want), "C20-verdicts-exactly-the-accepted-items")
+	if len(got) == len(want) {
+		for i := range want {
+			k, _ := vGetS(got[i], attr)
+			nd.Assert(k == want[i], "C20-verdicts-accepted-items-in-key-order")
+		}
+	}
+	nd.Reach("end")
+}
